@@ -58,6 +58,9 @@ void h_prod(void) {
   for (unsigned i = 0; i < XW; ++i) {
     VF_X[i] = vf_u64();
 #if FORM == 0
+#if defined(VF_CYCLIC_INPUTS) && !defined(__CPROVER__)
+    VF_X[i] &= 0xffffffffULL;
+#endif
     VF_ASSUME(VF_X[i] <= 0xffffffffULL); /* a layout: 32-bit values */
 #endif
     x[i] = VF_X[i];
@@ -65,6 +68,9 @@ void h_prod(void) {
   for (unsigned i = 0; i < YW; ++i) {
     VF_Y[i] = vf_u64();
 #if FORM == 0 || Y32
+#if defined(VF_CYCLIC_INPUTS) && !defined(__CPROVER__)
+    VF_Y[i] &= 0xffffffffULL;
+#endif
     VF_ASSUME(VF_Y[i] <= 0xffffffffULL);
 #endif
 #if Y32
